@@ -572,7 +572,7 @@ def sweep_hooks(name):
         if nd is None:
             case.fail("C08", "point-not-a-representative", "returned point is not the c_point of any cell", step=t, algo=name); return
         led = S["ledger"]
-        hmax = getattr(a, "h_max", None)
+        hmax = ctx["meta"]["params"].get("h_max", getattr(a, "h_max", None))      # the cap the caller asked for
         if nd.get_children() is not None:
             case.fail("C08", "handed-out-internal-cell", f"({nd.get_depth()},{nd.get_index()}) is not a leaf", step=t, algo=name)
         if name in ("SOO", "StoSOO") and nd.get_depth() > hmax:
@@ -848,7 +848,7 @@ def poo_hooks():
             case.fail("C10", "routing", f"point proposed by learner {served}, reward delivered to learner {recvs[0][1]}", step=t, algo=name)
             # the cell that was evaluated lives in the proposing learner's tree: the reward was credited to cells of another tree
             case.fail("C04", "reward-to-other-learner", f"the evaluated point came from learner {served}'s tree, the reward was credited in learner {recvs[0][1]}'s tree", step=t, algo=name)
-        objs = [e["obj"] for e in log["created"]]
+        objs = [e["ref"]() for e in log["created"]]            # POO keeps every learner: all alive
         if list(a.V_algo) != objs or objs[:len(S["learners"])] != S["learners"]:
             case.fail("C10", "learners-not-append-only", "the learner list was reordered or a learner was dropped", step=t, algo=name)
         S["learners"] = objs
@@ -937,7 +937,7 @@ def gpo_hooks(name="GPO"):
             if created != ph + 1:
                 case.fail("C09", "learner-count", f"round {k+1}: {created} learners created, schedule says {ph+1} (N={N}, half={half})", step=t, algo=name)
                 return
-            l = log["created"][ph]["obj"]
+            l = log["created"][ph]["ref"]()
             kw = log["created"][ph]["kw"]
             exp_rho = p["rhomax"] ** (2 * N / (2 * (ph + 1) + 1))
             if kw.get("nu") != p["numax"] or not rel_close(kw.get("rho"), exp_rho):
@@ -945,7 +945,7 @@ def gpo_hooks(name="GPO"):
             if c < half:
                 if [e[:2] for e in evs] != [("pull", ph), ("recv", ph)] or evs[1][2] != r:
                     case.fail("C09", "explore-routing", f"round {k+1} (phase {ph+1}, exploration): learner events {[(e[0], e[1]) for e in evs]}", step=t, algo=name)
-                S["last_prop"][ph] = pt
+                S["last_prop"][ph] = [float(x) for x in pt]        # by value: what was proposed, whatever becomes of the list object
             else:
                 if evs:
                     case.fail("C09", "validation-routing", f"round {k+1} (phase {ph+1}, validation): reward reached a base learner {[(e[0], e[1]) for e in evs]}", step=t, algo=name)
@@ -983,11 +983,13 @@ def gpo_hooks(name="GPO"):
             return
         best = max(float(v) for v in g.V_reward)
         idx = [i for i, v in enumerate(g.V_reward) if float(v) == best]
-        if not any(list(q) == list(g.V_x[i]) for i in idx):
+        # the validated points as they were proposed (snapshots by value), not as the object holds them now
+        vx = lambda i: S["last_prop"].get(i, list(g.V_x[i]))
+        if not any([float(x) for x in q] == [float(x) for x in vx(i)] for i in idx):
             case.fail("C07", "recommendation-not-best-validated", f"{q}", step="end", algo=name)
             if g.phase > g.N:        # all phases are over: the final choice is part of the published schedule
                 case.fail("C09", "final-choice", f"all phases are over, get_last_point returns {q}, the validated point(s) of highest score: "
-                          f"{[list(g.V_x[i]) for i in idx][:3]}", step="end", algo=name)
+                          f"{[vx(i) for i in idx][:3]}", step="end", algo=name)
 
     return {"after_init": after_init, "after_pull": after_pull, "after_recv": after_recv, "at_end": at_end}
 
